@@ -13,7 +13,7 @@ RULE = (
     "distinct by program hash"
 )
 ASSUMPTIONS = ["key-shaped = tuple (name, int...) whose name is an expression of the plan or the head of a graph key"]
-BUDGET_S = {"quick": 170, "thorough": 3000}
+BUDGET_S = {"quick": 170, "thorough": 900}
 
 PROFILE_Q = gen.Profile("graphs", max_steps=6, max_rows=10, siblings=25, weights={"cut": 1.0, "partitions": 1.2, "map_partitions": 1.2, "rolling": 0.8, "shift": 1.2, "cum": 1.0, "groupby_window": 0.5, "map_overlap": 0.8})
 PROFILE_T = gen.Profile("graphs", max_steps=10, max_rows=16, n_tables=(1, 3), siblings=25, weights={"cut": 1.0, "partitions": 1.2, "map_partitions": 1.2, "rolling": 0.8, "shift": 1.2, "cum": 1.0, "groupby_window": 0.5, "map_overlap": 0.8})
